@@ -10,6 +10,7 @@ import (
 	"encoding/binary"
 	"errors"
 
+	"go.uber.org/multierr"
 	"go.uber.org/zap"
 
 	"go.opentelemetry.io/collector/component"
@@ -258,7 +259,11 @@ func VerifC01Crash() {
 					}
 					o := outs[0]
 					outs = outs[1:]
-					switch vChoice("outcome", 3) {
+					switch vChoice("outcome", 4) {
+					case 3:
+						// a request split by the batcher: one piece interrupted by shutdown, another piece failed;
+						// the aggregated outcome is still an interruption, the request must stay stored
+						o.done.OnDone(multierr.Append(experr.NewShutdownErr(errors.New("stopping")), errors.New("other piece failed")))
 					case 0:
 						o.done.OnDone(nil)
 						led.final[o.seq]++
